@@ -32,7 +32,19 @@ theorem mem_canonSet (x : Int) (l : List Int) : x ∈ canonSet l ↔ x ∈ l := 
     have : canonSet (a :: as) = insertSorted a (canonSet as) := rfl
     rw [this, mem_insertSorted, ih]; simp
 
-theorem setterArgs_argOK (c : Cfg) (pid i : Nat) (kind : SetKind) (args a : List Int)
+theorem mem_range_int (n : Nat) (x : Int) : x ∈ (List.range n).map Int.ofNat ↔ (0 ≤ x ∧ x < (n : Int)) := by
+  simp only [List.mem_map, List.mem_range]
+  constructor
+  · rintro ⟨m, hm, rfl⟩
+    simp only [Int.ofNat_eq_natCast]
+    omega
+  · rintro ⟨h0, hlt⟩
+    refine ⟨x.toNat, by omega, ?_⟩
+    simp only [Int.ofNat_eq_natCast]
+    omega
+
+theorem setterArgs_argOK (c : Cfg) (hall : c.affinityAll = CPU_SETSIZE) (pid i : Nat) (kind : SetKind)
+    (args a : List Int)
     (h : setterArgs c pid kind args = some a) : ArgOK (.setter i kind args) (.set kind) a := by
   cases kind with
   | nice =>
@@ -46,10 +58,13 @@ theorem setterArgs_argOK (c : Cfg) (pid i : Nat) (kind : SetKind) (args a : List
     rcases args with _ | ⟨v, r⟩ <;> simp [setterArgs] at h
     simp only [ArgOK]; exact h.2.2.symm
   | affinity =>
-    rcases args with _ | ⟨v, r⟩ <;> simp [setterArgs] at h
-    subst h
-    simp only [ArgOK]
-    intro x; exact mem_canonSet x _
+    rcases args with _ | ⟨v, r⟩ <;> simp only [setterArgs, Option.some.injEq] at h
+    · subst h
+      simp only [ArgOK]
+      intro x; rw [hall]; exact mem_range_int _ x
+    · subst h
+      simp only [ArgOK]
+      intro x; exact mem_canonSet x _
 
 theorem sigOf_good {c : Cfg} (hg : c.Good) (m : SigMethod) : sigOf c m = sigNumber m := by
   cases m <;> simp [sigOf, sigNumber, hg.sigStop, hg.sigCont, hg.sigTerm, hg.sigKill]
